@@ -271,6 +271,8 @@ func TestVerif_C14(t *testing.T) {
 				strings.Repeat("k", 1+rng.IntN(40)), "x-" + strings.Repeat("q", rng.IntN(38)), "a", "b", "ab", "ba",
 				// names around every power-of-two length (lesson of seeded change C14-jF: a length bitmask that wraps at 64)
 				strings.Repeat("n", choose(rng, []int{31, 32, 33, 62, 63, 64, 65, 66, 100, 127, 128, 129, 200, 255, 256, 257, 300})),
+				// ... and around 2^15 and 2^16 (lesson of seeded change C14-o: a scan window clamped to MaxInt16)
+				"y-" + strings.Repeat("v", choose(rng, []int{32764, 32765, 32766, 32767, 40000, 65533, 65534, 65535, 70000})),
 				"x-long-" + strings.Repeat("m", choose(rng, []int{24, 25, 26, 55, 56, 57, 58, 59, 120, 121, 122, 249, 250})),
 				"accept", "accept-language", "content-language", "range",
 				// names that do not start with a letter (lesson of seeded change C14-n): digits and every special token byte
